@@ -250,6 +250,17 @@ def extra_checks(ctx, e, A, M):
                               oracle="documented special case (unit pixels, aligned detector)")
         # model with the implementation's own bin indices / weights (scatter logic)
         return "xray"
+    if cls == "XRayTransform3D" and c.get("covers"):
+        # the detector covers the shadow of the volume in every view: every voxel's weights sum to 1 per view
+        nview = A.output_shape[0]
+        per = M.shape[0] // nview
+        for v in range(nview):
+            cs = M[v * per:(v + 1) * per].sum(axis=0)
+            if not (np.abs(cs - 1.0).max() <= 1e-5):
+                ctx.violation(cls, "total mass is not conserved in a view although the detector covers the shadow",
+                              {**key, "view": v}, expected="column sums 1", observed=[float(t) for t in cs[:12]],
+                              oracle="mass conservation (3-D)")
+                break
     if cls == "AbelTransform":
         x = L.rand_dyadic_np(ctx.rng, c["shape"])
         x = (x + x[:, ::-1]) / 2          # left-right symmetric as documented
